@@ -491,7 +491,8 @@ Section Decomp.
       + pose proof (B_acts d m c POST s2 POST_okB HB) as HB3.
         assert (Hpost : snd (exec_acts c POST s2) = SOk \/ snd (exec_acts c POST s2) = SCrash).
         { unfold POST. generalize s2. induction ov as [|h r IH]; intros s; cbn [map]; [left; reflexivity|].
-          rewrite exec_acts_cons. unfold perform at 1. simpl. destruct (at_idx (crash_at c) (length (s_trace s))); simpl; [right; reflexivity|apply IH]. }
+          rewrite exec_acts_cons. unfold perform. simpl. rewrite andb_false_r.
+          destruct (at_idx (crash_at c) (length (s_trace s))); simpl; [right; reflexivity|apply IH]. }
         pose proof (exec_acts_nocrash c POST s2) as Hnc.
         destruct (exec_acts c POST s2) as [s3 r3]. cbn [fst snd] in *.
         exists d, m, s1. split; [exact HB3|split; [exact H1|split; [exact HP|]]]. intros Hcr.
